@@ -19,6 +19,17 @@ func checkC12(c *Ctx) {
 	c.Decides("SIBLING: each of parsimonyUPPASS (inner-node branch), parsimonyDOWNPASS, parsimonyDELTRAN, parsimonyACCTRAN, computeParsimony and randomlyResolveNodeStates is reduced, in package acr and in package asr, to a normalised skeleton (loops over children / states, count-vs-threshold decisions normalised to 'count >= k', which state vector of which node is read or written, accumulation operators, calls) with the per-site loop of asr projected away; the two skeletons must be equal ('sequence reconstruction agrees site by site with single-character reconstruction')")
 	c.Decides("GF: kept states are exactly those whose count equals a running maximum taken from 0 with a strict test; a step is counted exactly for each child whose count of the kept (arg-max) state is 0; FRESH: every temporary count vector is allocated inside the innermost child/site loop that accumulates into it (no leak between sites or children); PATH: the second passes store into a node's own state vector only under 'not a tip'")
 	c.DoesNotDecide("optimality (steps = true minimum), membership of reported states in most-parsimonious reconstructions, independence of the rooting: numerical facts about a dynamic programme; ACCTRAN's stores into child vectors are not shown to leave tips unchanged")
+	c.Decides("LASTLINE (shared with C05/C06/C15): the line readers behind the --states file of acr do not read lines with bufio ReadString/ReadBytes unless they handle io.EOF and strip the carriage return (a state read as \"A\\r\" is another state than \"A\")")
+	c.lastLineIn("tip states are never altered", "cmd/acr.go", "cmd/asr.go")
+	c.Decides("ARGNAME: the acr and asr commands (like every command) pass to a boolean library parameter with a telling name the option variable named after it, not a neighbouring option variable of the same type")
+	{
+		var fs []*FuncInfo
+		fs = append(fs, c.AllFuncs("cmd")...)
+		fs = append(fs, c.PkgLevelClosures("cmd")...)
+		ns, _ := c.argName("ARGNAME", fs, "without random resolution, tip states are never altered and the plain down-pass reports exactly all optimal states")
+		c.Extra["argname_sites"] = ns
+	}
+	c.Floor("ARGNAME", 8)
 	pairs := []string{"parsimonyUPPASS", "parsimonyDOWNPASS", "parsimonyDELTRAN", "parsimonyACCTRAN", "computeParsimony", "randomlyResolveNodeStates"}
 	for _, fn := range pairs {
 		a := c.Func("acr", "", fn)
